@@ -97,7 +97,7 @@ func lensFor(b int) []int {
 func c04(args []string) {
 	c := chk.New("C04", "exploration", args)
 	c.Build(false)
-	c.Rule("seeded generator of acyclic graphs (chains, diamonds, fan-out, fan-in, zip, params, port-less, Go functions); each graph is run under 3 configurations (SCIPIPE_BUFSIZE, maxConcurrentTasks, GOMAXPROCS, yield seed); oracle = exactly-once over the command trace + file set/sha256 vs. independent reference + identical results across configurations. distinct_nontrivial = distinct (graph shape, configuration, interleaving signature) triples of runs with >= 2 executed tasks")
+	c.Rule("seeded generator of acyclic graphs (chains, diamonds, fan-out, fan-in, zip, params, port-less, Go functions); each graph is run under 3 configurations (SCIPIPE_BUFSIZE, maxConcurrentTasks, GOMAXPROCS, yield seed); oracle = exactly-once over the command trace + file set/sha256 vs. independent reference + identical results across configurations; plus close storms: command-free fan-ins of 2-8 one-file sources into one in-port, built and run 1500-3000 times inside one child process (hooks passive in most of them) - Run must return each time and every item must pass. distinct_nontrivial = distinct (graph shape, configuration, interleaving signature) triples of runs with >= 2 executed tasks")
 	c.Assume("SCIPIPE_BUFSIZE >= 1", "generator well-formedness: merged (fan-in) streams feed single-port processes only; unequal stream lengths on one process only below the buffer size", "bash and coreutils as installed")
 	ngraphs := c.Pick(40, 500)
 	rng := c.Rand("c04")
@@ -264,6 +264,8 @@ func c04(args []string) {
 			c.Count("metamorphic_pairs", 1)
 		}
 	}
+	closeStorm(c, "files")
+	closeStorm(c, "params")
 	c.Finish()
 }
 
